@@ -94,6 +94,26 @@ Qed.
 Theorem parse_depends_on_tokens a b : lex a = lex b -> parse_source fparse crank a = parse_source fparse crank b.
 Proof. intro E. unfold parse_source. rewrite E. reflexivity. Qed.
 
+(* an accepted source was consumed entirely: the token list is the consumed tokens followed
+   by the EOF token, nothing is left over, and every consumed literal converted successfully *)
+Theorem accepted_consumes_all src v :
+  parse_source fparse crank src = PValue v ->
+  exists cs e, lex src = cs ++ [e] /\ ttype_of e = TEOF /\ Forall (nonEOF fparse) cs.
+Proof.
+  intros E.
+  pose proof (parse_tokens_spec stack_cap_ok fparse crank (lex src)) as S.
+  unfold parse_source in E. rewrite E in S.
+  destruct S as (cs & e & tl & Ets & Fcs & Ee).
+  destruct (well_ended_split _ (lex_total src)) as (body & last & Eb & Hl & Hb).
+  assert (Htl : tl = []).
+  { destruct tl as [|z tl'] using rev_ind; auto.
+    rewrite Eb in Ets. rewrite app_comm_cons, app_assoc in Ets.
+    apply app_inj_tail in Ets. destruct Ets as (Ebody & _).
+    rewrite Forall_forall in Hb. exfalso. apply (Hb e); auto.
+    rewrite Ebody. apply in_or_app. right. left. reflexivity. }
+  subst tl. exists cs, e. auto.
+Qed.
+
 (* C11 literal_exact: when a source is accepted, every literal token of it had an exact
    value — no token of an intrinsic type whose conversion fails is ever consumed silently *)
 Theorem literal_exact src v t :
@@ -102,18 +122,8 @@ Theorem literal_exact src v t :
   literal_value fparse (ttype_of t) (tval t) <> None.
 Proof.
   intros E Hin L.
-  pose proof (parse_tokens_spec stack_cap_ok fparse crank (lex src)) as S.
-  unfold parse_source in E. rewrite E in S.
-  destruct S as (cs & e & tl & Ets & Fcs & Ee).
-  destruct (well_ended_split _ (lex_total src)) as (body & last & Eb & Hl & Hb).
-  (* the EOF token e is the last token, so tl is empty and t is in cs *)
-  assert (Htl : tl = []).
-  { destruct tl as [|z tl'] using rev_ind; auto.
-    rewrite Eb in Ets. rewrite app_comm_cons, app_assoc in Ets.
-    apply app_inj_tail in Ets. destruct Ets as (Ebody & _).
-    rewrite Forall_forall in Hb. exfalso. apply (Hb e); auto.
-    rewrite Ebody. apply in_or_app. right. left. reflexivity. }
-  subst tl. rewrite Ets in Hin. apply in_app_or in Hin. destruct Hin as [Hin|[Hin|[]]].
+  destruct (accepted_consumes_all src v E) as (cs & e & Ets & Ee & Fcs).
+  rewrite Ets in Hin. apply in_app_or in Hin. destruct Hin as [Hin|[Hin|[]]].
   - rewrite Forall_forall in Fcs. destruct (Fcs t Hin) as (_ & Lok). apply Lok. exact L.
   - subst t. rewrite Ee in L. discriminate.
 Qed.
@@ -128,6 +138,15 @@ Lemma parse_intrinsic_rejects fparse t r :
   parse_intrinsic fparse (mkSt [] (t :: r)) = Stop (PSyntax t).
 Proof.
   intros L V. destruct t as [ty v line pos]. simpl in *.
+  destruct ty; try discriminate; unfold parse_intrinsic; simpl; rewrite V; reflexivity.
+Qed.
+
+(* and conversely a literal token with an exact value is consumed with that value *)
+Lemma parse_intrinsic_accepts fparse t r v :
+  is_lit (ttype_of t) = true -> literal_value fparse (ttype_of t) (tval t) = Some v ->
+  parse_intrinsic fparse (mkSt [] (t :: r)) = Yes v t (mkSt [] r).
+Proof.
+  intros L V. destruct t as [ty x line pos]. simpl in *.
   destruct ty; try discriminate; unfold parse_intrinsic; simpl; rewrite V; reflexivity.
 Qed.
 
